@@ -51,6 +51,16 @@ def run(run):
         for k in range(max(len(ref), len(lines))):
             a = ref[k] if k < len(ref) else '<missing>'
             b = lines[k] if k < len(lines) else '<missing>'
+            if a != b and a.startswith('KNOWN-D7 ') and b.startswith('KNOWN-D7 ') and a.split('\t')[0] == b.split('\t')[0] \
+                    and 'raised KeyError' in a and 'raised KeyError' in b:
+                known = [kf for kf in run.known if kf['match'].get('site') == 'bitsets frommembers(set(members)) KeyError']
+                if known:
+                    hit = ('with two or more labels unknown to the family that is looked up, the name carried by the KeyError of '
+                           'Context.intension / extension / __getitem__ differs between PYTHONHASHSEED values (%s)' % a.split('\t')[0][9:].split(' ', 1)[1])
+                    hit = hit.rsplit(' (', 1)[0]
+                    if hit not in run.known_hits:
+                        run.known_hits.append(hit)
+                    continue
             if a != b:
                 run.fail('observable differs between PYTHONHASHSEED=%s and %s: %s' % (ref_seed, seed, a.split('\t')[0]),
                          {str(ref_seed): a[:1500], str(seed): b[:1500]}, 'identical',
